@@ -58,7 +58,8 @@ def do_import(wt, name):
     d = os.path.join(ROOT, 'seeded', name)
     os.makedirs(d, exist_ok=True)
     for f in ('patch.diff', 'demo.py', 'meta.json'):
-        shutil.copy(os.path.join(wt, f), os.path.join(d, f))
+        if os.path.abspath(wt) != os.path.abspath(d):
+            shutil.copy(os.path.join(wt, f), os.path.join(d, f))
     meta = json.load(open(os.path.join(d, 'meta.json')))
     patch = os.path.join(d, 'patch.diff')
     demo = os.path.join(d, 'demo.py')
